@@ -44,7 +44,7 @@ def checkLine (line : String) : String × String × Verdict :=
         | "alg" => checkAlg op args r
         | "val" => checkVal op args r
         | "hist" => checkHist op args r
-        | "ev" => checkEval op args r
+        | "ev" => checkEval2 op args r
         | "ugcd" => checkUGcd op args r
         | "refs" => checkRefs args r
         | _ => Verdict.skip s!"unknown family {fam}"
